@@ -140,6 +140,16 @@ def run_ops(op, ops):
                 op.get_context().execute(stmt, execution_options=o.get("execution_options"))  # MigrationContext.execute
             else:
                 op.execute(stmt, execution_options=o.get("execution_options"))
+        elif k == "execute_expr":
+            # op.execute() of a SQL expression construct whose values are bound parameters
+            t = sa.table(o["table"], *[sa.column(c["name"], type_py(c["type"])) for c in o["cols"]])
+            vals = {n: val_py(v) for n, v in o.get("values", {}).items()}
+            if o["kind"] == "insert":
+                op.execute(t.insert().values(**vals))
+            elif o["kind"] == "update":
+                op.execute(t.update().where(t.c.id == o["where_id"]).values(**vals))
+            else:
+                op.execute(t.delete().where(t.c.id == o["where_id"]))
         elif k == "autocommit":
             # the documented way to leave the migration's transaction for a few statements
             with op.get_context().autocommit_block():
@@ -191,6 +201,16 @@ def render_py(ops):
             stmt = ("sa.text(%r)" if o.get("as_text") else "%r") % o["text"]
             fn = "op.get_context().execute" if o.get("via") == "context" else "op.execute"
             out.append("%s(%s, execution_options=%r)" % (fn, stmt, o.get("execution_options")))
+        elif k == "execute_expr":
+            t = "sa.table(%r, %s)" % (o["table"], ", ".join("sa.column(%r, %s)" % (c["name"], type_src(c["type"])) for c in o["cols"]))
+            vals = "{%s}" % ", ".join("%r: %r" % (n, val_py(v)) for n, v in o.get("values", {}).items())
+            out.append("_t = %s" % t)
+            if o["kind"] == "insert":
+                out.append("op.execute(_t.insert().values(**%s))" % vals)
+            elif o["kind"] == "update":
+                out.append("op.execute(_t.update().where(_t.c.id == %r).values(**%s))" % (o["where_id"], vals))
+            else:
+                out.append("op.execute(_t.delete().where(_t.c.id == %r))" % o["where_id"])
         elif k == "autocommit":
             out.append("with op.get_context().autocommit_block():")
             out.extend("    " + l for l in render_py(o["ops"]))
